@@ -12,6 +12,7 @@ PLAN.json (all optional):
   count_write_events : bool   only count those events (written to after.json)
   break_mutator: {cls, method, mod, salt}  make a mutator raise on some nodes
   break_apply  : {mod, salt}  make apply_simp raise for some candidates (inside the workers)
+  observe_file : true  during every write of the output file, read the file at every traced line; contents other than the previous and the new one are listed in after.json 'torn'
   parse_only   : true  stop when the input has been read; after.json gets 'parsed' (nested lists)
   fixpoint     : {spec, opts}  after main(): enumerate every proposal on the
                         result of strategy_hierarchical.reduce and evaluate it
@@ -150,10 +151,23 @@ def main():
             state['writes_log'].append(dg)
             if trace:
                 emit(dict(e='Wb', cand=dg, tok=tokdigest(exprs), n=state['writes'], ids_distinct=ids_distinct(exprs)))
-        if is_out and (interrupt_at is not None or count_events):
+        observe = plan.get('observe_file')
+        if is_out and observe:
+            def snap():
+                try:
+                    with open(filename, 'rb') as f_:
+                        return f_.read()
+                except OSError:
+                    return None
+            before_bytes = snap()
+            seen_bytes = set()
+        if is_out and (interrupt_at is not None or count_events or observe):
 
             def tracer(frame, event, arg):
                 if event in ('line', 'call', 'return'):
+                    if observe:
+                        # what another process would read at this instant
+                        seen_bytes.add(snap())
                     state['write_events'] += 1
                     if interrupt_at is not None and state['write_events'] == interrupt_at:
                         sys.settrace(None)
@@ -166,6 +180,11 @@ def main():
                 res = orig_write(filename, exprs)
             finally:
                 sys.settrace(None)
+            if observe:
+                after_bytes = snap()
+                for b in seen_bytes - {before_bytes, after_bytes}:
+                    state.setdefault('torn', []).append(dict(write=state['writes'], size=None if b is None else len(b),
+                                                             head=None if b is None else b[:80].decode('utf-8', 'replace')))
         else:
             res = orig_write(filename, exprs)
         if is_out:
@@ -346,6 +365,8 @@ def main():
                  stopped=state.get('stopped', False), repeat=state.get('repeat'),
                  too_many_accepts=state.get('too_many_accepts', False))
 
+    if 'torn' in state:
+        after['torn'] = state['torn'][:20]
     if 'parsed' in state:
         after['parsed'] = state['parsed']
     if state.get('repeat'):
